@@ -5,6 +5,8 @@ chain of one request: P1, P2, W1 (response), the transport Write of a response r
 -/
 namespace Conn
 
+set_option linter.unusedVariables false
+
 /-! ### frame facts -/
 
 @[simp] theorem tail_unotifs (s : St) : (tail s).unotifs = s.unotifs := congrArg NView.us (nview_tail s)
@@ -178,5 +180,62 @@ theorem monreqs_p1 {m : Mon} {s s0 : St} {p : Obs} {r : Nat} (mr : MonReqs m s) 
         · exact rel.cpeer
         · simp
         · intro hc; have := rel.cfin hc; simp [hpc] at this
+
+/-! ### P2 -/
+
+theorem monreqs_p2 {m : Mon} {s s0 : St} {p : Obs} {r : Nat} (mr : MonReqs m s) (i : Inv4 s)
+    (hp : p.shuttingDown = s.shuttingDown) (h : step0 s (.p2 r) = some s0) :
+    MonReqs (m.book p (evOf (.p2 r))) s0 := by
+  simp only [step0] at h
+  split at h
+  · cases h
+  · rename_i q hq
+    split at h
+    · cases h
+    · rename_i hpc
+      have hpc : q.pc = .p2 := by simpa using hpc
+      cases h
+      have hrel : ∀ (f : ReqMeta → ReqMeta), (∀ mt, (f mt).cancelled = mt.cancelled ∧ (f mt).started = mt.started ∧
+          (f mt).asyncCalled = mt.asyncCalled ∧ (f mt).seen = mt.seen) →
+          ∀ q' k mt, m.reqs[r]? = some q' → s.cores[r]? = some k → s.metas[r]? = some mt →
+          ReqRel q' k mt → ReqRel { q' with p2done := true } { k with pc := .fin } (f mt) := by
+        intro f hf q' k mt hq' hk hmt rel
+        rw [hq] at hk; cases hk
+        obtain ⟨f1, f2, f3, f4⟩ := hf mt
+        constructor
+        · exact rel.id
+        · exact rel.idk
+        · exact rel.cancelKind
+        · exact rel.kind
+        · simp
+        · exact rel.w1
+        · exact rel.ok
+        · have := rel.p1; simp_all [ReqPc.afterP1]
+        · rw [f2]; exact rel.st
+        · simp
+        · rw [f3]; exact rel.asyncd
+        · simp
+        · simp
+        · rw [f1]; exact rel.peer
+        · rw [f1]; exact rel.cpeer
+        · simp
+        · simp
+      cases hown : q.owner
+      · refine mr.upd r (fun k => { k with pc := .fin }) id (fun q => { q with p2done := true })
+          ?_ ?_ rfl ?_ id id ?_ ?_ ?_ ?_ (fun _ _ => ⟨id, id⟩) ?_ (hrel id (fun _ => ⟨rfl, rfl, rfl, rfl⟩))
+        all_goals first
+          | (intro k e _ hk; simp at hk; done)
+          | (simp only [afterP2]; split <;> simp [modCore, evOf, Mon.book, modR, mr.idx]; done)
+      · refine mr.upd r (fun k => { k with pc := .fin }) id (fun q => { q with p2done := true })
+          ?_ ?_ rfl ?_ id id ?_ ?_ ?_ ?_ (fun _ _ => ⟨id, id⟩) ?_ (hrel id (fun _ => ⟨rfl, rfl, rfl, rfl⟩))
+        all_goals first
+          | (intro k e _ hk; simp at hk; done)
+          | (simp only [afterP2]; split <;> simp [modCore, evOf, Mon.book, modR, mr.idx]; done)
+      · refine mr.upd r (fun k => { k with pc := .fin }) (fun q => { q with released := true })
+          (fun q => { q with p2done := true })
+          ?_ ?_ rfl ?_ id id ?_ ?_ ?_ ?_ (fun _ _ => ⟨id, id⟩) ?_ (hrel _ (fun _ => ⟨rfl, rfl, rfl, rfl⟩))
+        all_goals first
+          | (intro k e _ hk; simp at hk; done)
+          | (simp only [afterP2]; split <;> simp [modCore, modMeta, evOf, Mon.book, modR, mr.idx]; done)
 
 end Conn
